@@ -29,8 +29,11 @@ def capball(rng, level=1):
     equator vertices), optionally with a conducting core: the outermost, sensor-carrying interface is multi-mesh"""
     def sig(): return math.exp(rng.uniform(math.log(0.05), math.log(20.0)))
     v0, t0 = models.octasphere(level); eps = 1e-12
-    vn, tn = models.submesh(v0, t0, lambda t: all(v0[a][2] >= -eps for a in t))
-    vs, ts = models.submesh(v0, t0, lambda t: all(v0[a][2] <= eps for a in t))
+    ax = rng.randint(0, 2)                      # the cut plane is the coordinate plane  x_ax = 0
+    vn, tn = models.submesh(v0, t0, lambda t: all(v0[a][ax] >= -eps for a in t))
+    mirrored = rng.random() < 0.6
+    if mirrored: vs, ts = mirror_mesh(vn, tn, ax)
+    else: vs, ts = models.submesh(v0, t0, lambda t: all(v0[a][ax] <= eps for a in t))
     meshes = [("north", vn, tn), ("south", vs, ts)]
     interfaces = [("Skin", [(+1, "north"), (+1, "south")])]
     core = rng.random() < 0.6
@@ -42,7 +45,15 @@ def capball(rng, level=1):
     else:
         domains = [("BALL", [(-1, "Skin")]), ("Air", [(+1, "Skin")])]; cond = {"BALL": sig(), "Air": 0.0}
     return dict(meshes=meshes, interfaces=interfaces, domains=domains, cond=cond,
-                info=dict(kind="capball", topology="capball", centre=(0, 0, 0), level=level, outer_radius=1.0, core=core, outer_mesh="south"))
+                info=dict(kind="capball", topology="capball", centre=(0, 0, 0), level=level, outer_radius=1.0, core=core, outer_mesh="south",
+                          cut_axis="xyz"[ax], mirrored=mirrored))
+
+def mirror_mesh(verts, tris, ax):
+    """the mirror image of a mesh through the coordinate plane x_ax = 0 (winding swapped so that it stays outward).  The
+    vertices ON the plane get -0.0 where the original has 0.0: the two files then describe the shared rim vertices with
+    differently signed zeros (equal as numbers, different as bytes); the text writers keep the sign (`-0.0`)"""
+    mv = [tuple((-c if k == ax else c) for k, c in enumerate(v)) for v in verts]
+    return mv, [(a, c, b) for a, b, c in tris]
 
 def structured_dipoles(m):
     """dipole positions that share coordinates EXACTLY in the reference frame (and in no rotated frame): columns along the
@@ -89,6 +100,11 @@ def make_case(rng, level=1, kinds=("nested", "nested", "split", "inclusions", "n
     else:
         m = models.random_model(rng, level, [k_ for k_ in kinds if k_ not in ("isolated", "capball")] or ["nested"])
     info = m["info"]; topo = info["topology"]; R = info["outer_radius"]
+    if topo == "split" and rng.random() < 0.5:
+        ms = list(m["meshes"]); names_ = [x[0] for x in ms]
+        nv_, nt_ = ms[names_.index("north")][1], ms[names_.index("north")][2]
+        sv_, st_ = mirror_mesh(nv_, nt_, 2); ms[names_.index("south")] = ("south", sv_, st_); m["meshes"] = ms
+        info["mirrored"] = True
     if topo == "isolated": topo = "nested"          # sources / sensors as for a 3-layer nested model bounded by m2
     # orientation repair: one closed mesh wound inwards in the files (Interface::is_mesh_orientations_coherent has to
     # reorient it from the solid angle at the bounding-box centre, in the original and in the moved frame alike)
